@@ -222,12 +222,17 @@ func build(race bool) string {
 		marker = filepath.Join(out, "ok.race")
 	}
 	if _, err := os.Stat(marker); err == nil {
+		_ = os.WriteFile(filepath.Join(out, "used"), []byte(time.Now().Format(time.RFC3339)), 0644)
 		return out
 	}
-	// drop stale builds (disk is limited)
+	// drop stale builds (disk is limited), but never one that another check started from
+	// within the last hour may still be running from
 	ents, _ := os.ReadDir(bdir)
 	for _, e := range ents {
 		if e.IsDir() && e.Name() != "bin" && e.Name() != hash && len(e.Name()) == 16 {
+			if fi, err := os.Stat(filepath.Join(bdir, e.Name(), "used")); err == nil && time.Since(fi.ModTime()) < time.Hour {
+				continue
+			}
 			_ = os.RemoveAll(filepath.Join(bdir, e.Name()))
 		}
 	}
@@ -256,6 +261,7 @@ func build(race bool) string {
 		}
 	}
 	_ = os.WriteFile(marker, []byte(time.Now().Format(time.RFC3339)), 0644)
+	_ = os.WriteFile(filepath.Join(out, "used"), []byte(time.Now().Format(time.RFC3339)), 0644)
 	return out
 }
 
@@ -952,21 +958,21 @@ func writeEvidence(spec propSpec, tier string, seed uint64, a *agg, incidental m
 	}
 	wall := time.Since(start).Seconds()
 	cov := map[string]interface{}{
-		"evaluations":         len(a.results),
-		"distinct_nontrivial": len(nontrivial),
-		"rule":                spec.Rule,
-		"samples":             samples,
-		"distinct_schedules":  len(distinct),
-		"runs_per_hour":       int(float64(len(a.results)) / wall * 3600),
-		"sim_seconds_total":   float64(simNS) / 1e9,
-		"steps_total":         steps,
-		"faults_fired":        faults,
-		"reach":               reach,
+		"evaluations":            len(a.results),
+		"distinct_nontrivial":    len(nontrivial),
+		"rule":                   spec.Rule,
+		"samples":                samples,
+		"distinct_schedules":     len(distinct),
+		"runs_per_hour":          int(float64(len(a.results)) / wall * 3600),
+		"sim_seconds_total":      float64(simNS) / 1e9,
+		"steps_total":            steps,
+		"faults_fired":           faults,
+		"reach":                  reach,
 		"distinct_state_digests": digests,
-		"profiles":            profiles,
-		"incidental":          incidental,
-		"known_findings_hit":  known,
-		"worker_crashes":      len(a.crashes),
+		"profiles":               profiles,
+		"incidental":             incidental,
+		"known_findings_hit":     known,
+		"worker_crashes":         len(a.crashes),
 		"components": map[string][]string{
 			"real": {"package raft (election, replication, membership, transfer, snapshots, FSM loop, server loop, connection pool, codecs) instrumented from the current tree", "package raft/log", "package raft/mmap", "real files and real mmap/msync/rename on tmpfs"},
 			"stub": {"goroutine scheduler", "clock and timers", "net.Conn/listener/dialer", "crash imaging and restart", "crypto/rand", "FSM (recording)", "clients and admin actors"},
